@@ -26,3 +26,21 @@ package base
 //@   loop 1 invariant[empty]    #index == -1 ==> len(result) == 0
 //@   loop 1 invariant[sound]    forall k string :: {k in result} (k in result) ==> (exists i int :: {names[i]} 0 <= i && i <= #index && names[i] == k)
 //@   loop 1 invariant[complete] forall i int :: {names[i]} 0 <= i && i <= #index ==> (names[i] in result)
+
+//@ props C03
+// copy: a fresh set with the same members.
+//@ func Set.copy
+//@   safety on
+//@   ensures[fresh] result != nil && !old(allocated(now(result)))
+//@   ensures[keys]  forall k string :: {k in result} (k in result) <==> (k in set)
+//@   ensures[frame] forall k string :: {k in set} (k in set) <==> old(k in set)
+//@   loop 1 invariant[frame] forall k string :: {k in set} (k in set) <==> old(k in set)
+//@   loop 1 invariant[keys] forall k string :: {k in result} (k in result) <==> (k in #visited)
+//@   loop 1 invariant[vis]  forall k string :: {k in #visited} (k in #visited) ==> (k in set)
+
+// Removing: the members without str; the receiver is never modified (a fresh copy is edited when str is a member).
+//@ func Set.Removing
+//@   safety on
+//@   ensures[keys]  forall k string :: {k in result} (k in result) <==> (k in set) && k != str
+//@   ensures[same]  !(str in set) ==> result == set
+//@   ensures[fresh] (str in set) ==> result != nil && !old(allocated(now(result)))
